@@ -408,10 +408,27 @@ fn build_implicit(d: &mut Dice) -> GenCase {
     // an attribute-less variant of an enum that has a non-`_variant` enum-level format: that format is the variant's
     // format (display.md, "Default enum format"), an attribute-driven case that is not a bare placeholder => inert
     let under_default = is_enum && d.chance(25);
-    let sh = Shape { tr, attr: FMT_TRAITS[tr_idx].1, tr_ty, is_enum, named, fields: vec![field.clone()], values: vec![value], shared_default: false, shared_only: under_default };
+    // an attribute-less variant of an enum whose enum-level format mentions `_variant`: the format wraps the text the
+    // variant prints by itself (C07); it is an attribute-driven case whose placeholder refers to neither an argument nor
+    // a field => inert. `{_variant}` alone is generated for the non-Display derives only (its placeholder's trait is
+    // not the derived one, so nothing can be substituted); for Display the statement does not say whether a bare
+    // `{_variant}` counts as "no format at all" (the tree treats it so), hence there only with text around it.
+    // Pointer is left out: what "the field's own text" is under `{:p}` depends on the level of reference (C02's clause).
+    let under_wrapper = is_enum && !under_default && tr != "Pointer" && d.chance(25);
+    let wrapper_bare = under_wrapper && tr != "Display" && d.chance(55);
+    let sh = Shape { tr, attr: FMT_TRAITS[tr_idx].1, tr_ty, is_enum, named, fields: vec![field.clone()], values: vec![value], shared_default: false, shared_only: under_default || under_wrapper };
     let g = grid_fn(tr_ty);
-    let methods = format!("    pub fn __exp(&self) -> Vec<String> {{\n{}        {g}({})\n    }}\n", sh.bindings(), field.name);
-    let mut c = if under_default {
+    let mut methods = format!("    pub fn __exp(&self) -> Vec<String> {{\n{}        {g}({})\n    }}\n", sh.bindings(), field.name);
+    if under_wrapper {
+        methods.push_str(&format!("    pub fn __own(&self) -> String {{\n{}        format!(\"{{:{tr_ty}}}\", {})\n    }}\n", sh.bindings(), field.name));
+    }
+    let mut c = if under_wrapper {
+        let (lit, exp) = if wrapper_bare { ("\"{_variant}\"", "v.__own()".to_string()) } else { ("\"<{_variant}>\"", "format!(\"<{}>\", v.__own())".to_string()) };
+        let run = format!(
+            "    let mut acc = __Acc::new();\n    let plain = format!(\"{{:{tr_ty}}}\", v);\n    acc.same(\"an enum-level `_variant` format wraps the text the attribute-less single-field variant prints by itself\", &{exp}, &plain);\n    acc.inert({tr_ty:?}, &{g}(&v), &plain, &v.__exp());\n    acc.finish(o);\n"
+        );
+        GenCase::new(sh.render(Some(lit), &methods, &run))
+    } else if under_default {
         let run = format!(
             "    let mut acc = __Acc::new();\n    let plain = format!(\"{{:{tr_ty}}}\", v);\n    acc.same(\"an attribute-less variant prints the enum-level default format\", \"<shared default>\", &plain);\n    acc.inert({tr_ty:?}, &{g}(&v), &plain, &v.__exp());\n    acc.finish(o);\n"
         );
@@ -423,6 +440,12 @@ fn build_implicit(d: &mut Dice) -> GenCase {
     c.labels = vec!["class=implicit".into(), format!("trait={tr}"), format!("kind={}", if sh.is_enum { "enum" } else { "struct" }), format!("value={kind:?}")];
     if under_default {
         c.labels.push("implicit_under_enum_level_default".into());
+    }
+    if under_wrapper {
+        c.labels.push("implicit_under_enum_level_variant_wrapper".into());
+        if wrapper_bare {
+            c.labels.push("bare_variant_wrapper_under_non_display_derive".into());
+        }
     }
     if field.name.starts_with("r#") {
         c.labels.push("raw_identifier_field".into());
